@@ -1,0 +1,34 @@
+//go:build verif
+
+package uuid
+
+import "sync/atomic"
+
+// Verification hook H3 (build tag `verif` only): a replaceable time source for the snowflake
+// generator, and a read-only view of a generator's state. Nothing here is compiled without the tag.
+
+var verifClockFn atomic.Value // of func() int64
+
+// VerifSetClock installs f as the source of time units read by currentTimeUnit (nil restores the wall clock).
+// f is called with the generator's mutex held (from Next) or from NewSnowflake.
+func VerifSetClock(f func() int64) {
+	if f == nil {
+		verifClockFn.Store((func() int64)(nil))
+		return
+	}
+	verifClockFn.Store(f)
+}
+
+func verifClock() (int64, bool) {
+	if f, _ := verifClockFn.Load().(func() int64); f != nil {
+		return f(), true
+	}
+	return 0, false
+}
+
+// VerifState returns (machineID, seq, lastTimeUnit, lastID, backwardsCount).
+func (sf *Snowflake) VerifState() (int64, int64, int64, int64, int64) {
+	sf.guard.Lock()
+	defer sf.guard.Unlock()
+	return sf.machineID, sf.seq, sf.lastTimeUnit, sf.lastID, sf.backwardsCount
+}
